@@ -315,3 +315,19 @@ def run(ctx: Context) -> None:  # noqa: F811
     _core_run5(ctx)
     ctx.rep.rule("C09.R8", "HTTP/2: a request that passed the ACTIVE gate is visible to the IDLE transition (it is never counted idle / expired while a request is pending on it)")
     pending_visible_to_idle_transition(ctx, "C09.R8")
+
+
+
+_core_run_r9 = run
+
+
+def run(ctx: Context) -> None:  # noqa: F811
+    _core_run_r9(ctx)
+    if ctx.rep._borrow is not None:
+        return          # already running as a lender: no chains
+    from . import c05
+
+    with ctx.rep.borrow({"C05.R4": ("C09.R9", "a connection with no exchange in flight becomes idle, expires and can be evicted: the recovery path of a failed / cancelled request - which gives "
+                                              "back whatever keeps the connection ACTIVE (stream entry, slot, in-flight count) - must not be abandoned by a second cancellation:",
+                                    lambda key, detail: "HTTP2Connection" in key or "HTTP11Connection" in key)}):
+        c05.run(ctx)
